@@ -496,6 +496,50 @@ def r17f(P, R):
         R.holds("R17-c", "truncated-scan:none", "no scan over Schema::iter_types/iter_directives is cut by position")
 
 
+def r17g(P, R):
+    """a table that decides how a definition is printed is complete before it is consulted: in the printers, a loop over the
+    definitions must not both consult a set/map (`contains`, `get`) and keep adding to it entries computed from *other* data of
+    the elements — what an element sees then depends on which elements came before it, i.e. on the order of definitions.
+    (A seen-set, where what is added is the very key that is looked up, is not such a table.)"""
+    hits, n = [], 0
+    for f in sorted(P.fns.values(), key=lambda g: g.path):
+        if f.derived or "::tests" in f.path or f.crate != "nitrogql_printer":
+            continue
+        for loop in [x for x in f.walk() if x.get("k") == "Loop" and x.get("src") == "ForLoop"]:
+            inner = subnodes(loop)
+            declared = {y["local"] for y in inner if y.get("k") == "Binding" and "local" in y}
+
+            def locs(e):
+                return {y["local"] for y in subnodes(e) if y.get("k") == "Path" and "local" in y and y["local"] in declared}
+            queries, fills = {}, {}
+            for y in inner:
+                if y.get("k") == "MethodCall" and y["recv"].get("k") == "Path" and y["recv"].get("local") is not None and y["recv"]["local"] not in declared \
+                        and any(w in norm(y.get("recv_ty", "") or "") for w in ("HashSet", "HashMap", "BTreeSet", "BTreeMap", "IndexMap", "IndexSet")):
+                    lid = y["recv"]["local"]
+                    if y["method"] in ("contains", "contains_key", "get"):
+                        queries.setdefault(lid, []).append(set().union(*[locs(a_) for a_ in y["args"]]) if y["args"] else set())
+                    elif y["method"] in ("insert", "extend"):
+                        fills.setdefault(lid, []).append((set().union(*[locs(a_) for a_ in y["args"]]) if y["args"] else set(), y["recv"].get("name")))
+                elif y.get("k") == "Call" and (call_name(y) or "") in P.fns:
+                    for a_ in y["args"]:
+                        if a_.get("k") == "AddrOf" and a_.get("mut") and a_["e"].get("k") == "Path" and a_["e"].get("local") is not None and a_["e"]["local"] not in declared \
+                                and any(w in norm(a_["e"].get("t", "") or a_.get("t", "") or "") for w in ("HashSet", "HashMap", "BTreeSet", "BTreeMap", "IndexMap", "IndexSet")):
+                            others = set().union(*[locs(b_) for b_ in y["args"] if b_ is not a_]) if len(y["args"]) > 1 else set()
+                            fills.setdefault(a_["e"]["local"], []).append((others, a_["e"].get("name")))
+            for lid in sorted(set(queries) & set(fills)):
+                n += 1
+                qk = set().union(*queries[lid])
+                foreign = [nm for ls, nm in fills[lid] if not (ls & qk)]
+                if foreign and qk:
+                    hits.append((f, foreign[0]))
+    for f, nm in hits:
+        R.violated("R17-c", "read-while-filling:%s:%s" % (short(f.path), nm), "%s consults `%s` for each definition while the same loop is still adding entries to it that come "
+                   "from other definitions: what a definition sees depends on which definitions were visited before it, so the output changes when the schema's "
+                   "definitions are reordered" % (f.path, nm), loc=f.loc())
+    if not hits:
+        R.holds("R17-c", "read-while-filling:none", "no printer loop consults a table that the same loop is still filling from other elements (%d loops with a seen-set)" % n)
+
+
 def r17e(P, R):
     """a decision taken while files are merged one by one must not depend on which file comes first (the load order is the glob's
     alphabetical order, an accident of file naming).  In a loop that dispatches on the variant of each element and accumulates per
@@ -685,7 +729,7 @@ def r17pc(P, R):
             "self-check: the time/RNG detector does not see SystemTime::now in the control crate")
 
 
-RULES = [("R17-a", r17a), ("R17-b", r17b), ("R17-c", r17c), ("R17-c", r17e), ("R17-c", r17f), ("R17-d", r17d), ("R17-pc", r17pc)]
+RULES = [("R17-a", r17a), ("R17-b", r17b), ("R17-c", r17c), ("R17-c", r17e), ("R17-c", r17f), ("R17-c", r17g), ("R17-d", r17d), ("R17-pc", r17pc)]
 EXPLANATION = (
     "Hash-seed independence, for all inputs and all seeds: every expression in the workspace that exposes the iteration order "
     "of a std HashMap/HashSet (iter/keys/values/drain/retain/into_iter, for-loops, Debug formatting; resolved by receiver type, "
